@@ -26,6 +26,7 @@ DELETE = ['DeleteJson', 'DeleteToml', 'SplitBack']
 EXPAND = ['ExpandJson', 'ExpandToml', 'SplitBack']
 ASSIGN = [f + b for b in ('Json', 'Toml') for f in ('AssignScalar', 'AssignObject', 'AssignArray', 'AssignValue', 'Assign')] + ['SplitFront', 'IsRoot', 'ForLenIncl']
 LABELS = [n + 'Err' + a for n in ('Resolve', 'Assign') for a in ('Position', 'Offset', 'Labels')]
+PARSEERR = ['ParseErrOffset', 'ParseErrPointerOffset', 'ParseErrSourceOffset', 'ParseErrCompleteOffset', 'ParseErrInvalidEncodingLen', 'ParseErrLabels']
 BUF = ['FromTokens', 'PushFront', 'PushBack', 'PopBack', 'Append', 'Clear', 'PopFront', 'Replace']
 def _u(*ls):
     out = []
@@ -37,7 +38,7 @@ def _u(*ls):
 PROP_FUNCS = {
     'C01': _u(['ValidateBytes'], TOKEN, SLICE, POINTER, BUF),
     'C11': _u(BUF, ['IsRoot', 'Count']),
-    'C02': ['ValidateBytes'], 'C14': ['ValidateBytes'],
+    'C02': ['ValidateBytes'], 'C14': _u(['ValidateBytes'], PARSEERR),
     'C05': _u(WALKS, ['IndexFromStr', 'ForLen']), 'C09': _u(WALKS, DELETE, EXPAND, ASSIGN, ['IndexFromStr', 'ForLen']), 'C15': _u(WALKS, ASSIGN, LABELS, ['IndexFromStr', 'ForLen']),
     'C08': _u(WALKS, DELETE, ['IndexFromStr', 'ForLen']), 'C10': _u(WALKS, DELETE, EXPAND, ASSIGN, ['IndexFromStr', 'ForLen']),
     'C06': _u(EXPAND, ASSIGN, ['IndexFromStr', 'ForLenIncl']), 'C07': _u(EXPAND, ASSIGN, ['IndexFromStr', 'ForLenIncl']),
@@ -46,7 +47,7 @@ PROP_FUNCS = {
 }
 TRANSPORT_MEMBERS = {'TransportValidate': ['ValidateBytes'], 'TransportToken': TOKEN, 'TransportSlice': SLICE, 'TransportIndex': INDEX,
                      'TransportPointer': POINTER, 'TransportResolve': WALKS, 'TransportBuf': BUF, 'TransportDelete': ['DeleteJson', 'DeleteToml'], 'TransportExpand': ['ExpandJson', 'ExpandToml'],
-                     'TransportAssign': [x for x in ASSIGN if x.startswith('Assign')], 'TransportLabels': LABELS}
+                     'TransportAssign': [x for x in ASSIGN if x.startswith('Assign')], 'TransportLabels': LABELS, 'TransportParseErr': PARSEERR}
 TIE_THEOREMS = {
     'ValidateBytes': ['Jp.Tie.validate_bytes_eq', 'Jp.Tie.validate_bytes_nil'], 'FromEncoded': ['Jp.Tie.from_encoded_eq'],
     'TokenNew': ['Jp.Tie.new_eq'], 'Decoded': ['Jp.Tie.decoded_eq'], 'ForLen': ['Jp.Tie.for_len_eq'],
@@ -73,6 +74,9 @@ TIE_THEOREMS = {
     'AssignToml': ['Jp.Tie.assign_toml_eq', 'Jp.Tie.assign_toml_eq_toml'],
     'ResolveErrPosition': ['Jp.Tie.resolve_err_position_eq'], 'ResolveErrOffset': ['Jp.Tie.resolve_err_offset_eq'], 'ResolveErrLabels': ['Jp.Tie.resolve_err_labels_eq'],
     'AssignErrPosition': ['Jp.Tie.assign_err_position_eq'], 'AssignErrOffset': ['Jp.Tie.assign_err_offset_eq'], 'AssignErrLabels': ['Jp.Tie.assign_err_labels_eq'],
+    'ParseErrOffset': ['Jp.Tie.parse_err_offset_eq'], 'ParseErrPointerOffset': ['Jp.Tie.parse_err_pointer_offset_eq'],
+    'ParseErrSourceOffset': ['Jp.Tie.parse_err_source_offset_eq'], 'ParseErrCompleteOffset': ['Jp.Tie.parse_err_complete_offset_eq'],
+    'ParseErrInvalidEncodingLen': ['Jp.Tie.parse_err_invalid_encoding_len_eq'], 'ParseErrLabels': ['Jp.Tie.parse_err_labels_eq'],
     'ParseIndex': ['Jp.Tie.parse_index_eq'], 'ResolveJson': ['Jp.Tie.resolve_json_eq', 'Jp.Tie.resolve_json_loop'],
     'ResolveMutJson': ['Jp.Tie.resolve_mut_json_eq'], 'ResolveToml': ['Jp.Tie.resolve_toml_eq'], 'ResolveMutToml': ['Jp.Tie.resolve_mut_toml_eq'],
 }
@@ -89,6 +93,7 @@ TRANSPORT_THEOREMS = {
     'TransportBuf': ['gen_buf_step_eq', 'gen_step_refines', 'gen_from_tokens_tokens', 'gen_append_tokens', 'gen_append_root',
                      'run_gen_buf_eq', 'gen_history_refines'],
     'TransportExpand': ['gen_expand_json_spec', 'gen_expand_backends_agree'],
+    'TransportParseErr': ['gen_invalid_encoding_offsets', 'gen_label_inside', 'gen_label_starts_at_tilde'],
     'TransportLabels': ['gen_resolve_err_locates', 'gen_resolve_err_locates_all', 'gen_assign_err_locates_labels', 'gen_label_covers_token'],
     'TransportAssign': ['gen_assign_eq_spec', 'gen_assign_root', 'gen_assign_no_panic', 'gen_assign_atomic', 'gen_assign_read_your_write',
                         'gen_assign_frame', 'gen_assign_replaced_some', 'gen_assign_replaced_none', 'gen_assign_idempotent',
